@@ -100,9 +100,5 @@ def run(prop, tier):
 
 
 def replay(prop, obj, path):
-    sc = dict(obj["scenario"])
-    sc.update({"fixed_schedule": obj["schedule"], "cap": 1, "random": 0})
-    res = run_scenarios([sc])
-    print(json.dumps(res[0]["runs"][0])[:3000])
-    print("VIOLATION property=%s replay=%s (re-executed; inspect the history above)" % (prop, path))
-    return 1
+    import engine_conc
+    return engine_conc.replay(prop, obj, path)
